@@ -158,6 +158,32 @@ fn leaves(env: &Env) -> Vec<(Expr, bool)> {
             true,
         ),
         (Expr::Cmp(Path::field(f("l_tru_m")), CmpOp::IsTrue), true),
+        // brackets INSIDE literals are not nesting (9 open, 2 closed: a textual count
+        // would exceed every enumerated limit)
+        (
+            Expr::Cmp(
+                Path::field(f("str_m")),
+                CmpOp::Ord(OrdOp::Ne, Lit::Bytes(BytesLit::quoted(b"((((f(x) ((((".to_vec()))),
+            ),
+            false,
+        ),
+        (
+            Expr::Cmp(
+                Path::field(f("str_m")),
+                CmpOp::Matches(RegexLit { pattern: "(((((((((a)|(b))+))))))) \\(".to_string(), raw: None }),
+            ),
+            false,
+        ),
+        (
+            Expr::Cmp(
+                Path {
+                    base: Base::Field(f("l_str_m")),
+                    idx: vec![Idx::Each],
+                },
+                CmpOp::Contains(BytesLit::quoted(b")))(((((((((".to_vec())),
+            ),
+            true,
+        ),
         // a call with an EMPTY argument list is an argument list all the same
         (
             Expr::Cmp(
